@@ -271,6 +271,17 @@ def build_sto(flavour):
     return b.exe("sto_harness", objs, wrap("open", "pwrite", "close", "flock", "device_manager_get_driver"))
 
 
+def build_simcam(flavour, extra=()):
+    b = Builder(flavour, extra)
+    srcs = SIMCAMS + CORE_PLATFORM + CORE_LOGGER + [
+        "acquire-core-libs/src/acquire-device-properties/device/props/components.c",
+        "acquire-core-libs/src/acquire-device-properties/device/props/device.c",
+        "acquire-core-libs/src/acquire-device-hal/device/hal/camera.c",
+        "acquire-core-libs/src/acquire-device-hal/device/hal/driver.c"]
+    objs = b.objs(srcs) + b.objs([harness("simcam_harness.c")])
+    return b.exe("simcam_harness", objs, wrap("lock_acquire", "condition_variable_wait", "clock_sleep_ms"))
+
+
 TARGETS = {
     "chan": build_chan,
 }
